@@ -144,17 +144,17 @@ static volatile int occ_arrived, occ_need;
 static void * occ_body(void * a) {
   (void)a; __sync_fetch_and_add(&occ_arrived, 1);
   double t0 = sq_now();
-  while (occ_arrived < occ_need && sq_now() - t0 < 30.0) { /* spin without yielding: only another worker can run the others */ }
+  while (occ_arrived < occ_need && sq_now() - t0 < 20.0) { /* spin without yielding: only another worker can run the others */ }
   return (void *)(long)(occ_arrived >= occ_need);
 }
 static int occupy_all_workers(int nw) {
-  myth_thread_t th[8]; occ_arrived = 0; occ_need = nw; int ok = 1;
+  myth_thread_t th[8]; occ_arrived = 0; occ_need = nw; int together = 0;
   for (int i = 0; i < nw; i++) th[i] = myth_create(occ_body, 0);
-  for (int i = 0; i < nw; i++) { void * r = 0; myth_join(th[i], &r); if (!r) ok = 0; }
-  return ok ? nw : occ_arrived;
+  for (int i = 0; i < nw; i++) { void * r = 0; myth_join(th[i], &r); if (r) together++; }
+  return together;   /* number of threads that saw all nw of them running at the same time */
 }
 static const char * const OPN[] = { "init_ex(1)", "init_ex(2)", "init_ex(3)", "create+join", "fini", "query", "init()" };
-typedef struct { pid_t pid; int fd; int ops[8]; int n; } inflight_t;
+typedef struct { pid_t pid; int fd; int ops[8]; int n; double t0; } inflight_t;
 static void start_hist(inflight_t * f, const int * ops, int n) {
   int pfd[2]; if (pipe(pfd)) { f->pid = -1; return; }
   f->n = n; memcpy(f->ops, ops, sizeof(int) * n);
@@ -168,7 +168,7 @@ static void start_hist(inflight_t * f, const int * ops, int n) {
       if (op <= 2) { myth_globalattr_t ga[1]; myth_globalattr_init(ga); myth_globalattr_set_n_workers(ga, op + 1); myth_globalattr_set_bind_workers(ga, 0); myth_init_ex(ga); if (!inited) { inited = 1; nw = op + 1; dflt = nw; } }
       else if (op == 6) { myth_init(); if (!inited) { inited = 1; nw = dflt; } }
       else if (op == 3) { myth_thread_t t = myth_create(nop, (void *)9); void * r = 0; myth_join(t, &r); if (!inited) { inited = 1; nw = dflt; } if (r != (void *)9) { bad = 1; snprintf(m, sizeof m, "step %d: create+join delivered %p", i, r); }
-	if (!bad && nw <= 3) { int k = occupy_all_workers(nw); if (k != nw) { bad = 1; snprintf(m, sizeof m, "step %d: %d workers requested, but only %d of them ever ran a thread (the others do not schedule)", i, nw, k); } } }
+	if (!bad && nw <= 3) { int k = occupy_all_workers(nw); if (k != nw) { bad = 1; snprintf(m, sizeof m, "step %d: %d workers requested, but only %d of %d spinning threads ever saw all of them running at once (some workers do not schedule)", i, nw, k, nw); } } }
       else if (op == 4) { myth_fini(); if (inited) { inited = 0; int c = count_os_threads(); if (c != 1) { bad = 1; snprintf(m, sizeof m, "step %d: %d OS threads remain after myth_fini", i, c); } } }
       else { int q = myth_get_num_workers(); if (!inited) { inited = 1; nw = dflt; } int w = myth_get_worker_num(); if (q != nw || w < 0 || w >= q) { bad = 1; snprintf(m, sizeof m, "step %d: num_workers=%d (requested %d), worker_num=%d", i, q, nw, w); } }
       if (!bad && inited) { int q = myth_get_num_workers(); if (q != nw) { bad = 1; snprintf(m, sizeof m, "step %d (%s): runs with %d workers, requested %d", i, OPN[op], q, nw); } }
@@ -176,10 +176,12 @@ static void start_hist(inflight_t * f, const int * ops, int n) {
     if (write(pfd[1], m, strlen(m) + 1) < 0) {}
     _exit(bad);
   }
-  close(pfd[1]); f->pid = pid; f->fd = pfd[0];
+  close(pfd[1]); f->pid = pid; f->fd = pfd[0]; f->t0 = sq_now();
 }
 static int collect_hist(inflight_t * f, char * msg, size_t msz) {
-  int st; int hung = sq_wait_child(f->pid, 100, &st);
+  /* the histories of one batch run side by side: the limit counts from the start of the history, not from the moment its turn to be collected comes */
+  double left = 60.0 - (sq_now() - f->t0); if (left < 2) left = 2;
+  int st; int hung = sq_wait_child(f->pid, left, &st);
   ssize_t k = read(f->fd, msg, msz - 1); if (k < 0) k = 0; msg[k] = 0; close(f->fd);
   if (hung) { snprintf(msg, msz, "history hangs"); return 1; }
   if (WIFSIGNALED(st)) { snprintf(msg, msz, "%s", WTERMSIG(st) == SIGALRM ? "history hangs" : "history crashes"); return 1; }
